@@ -20,6 +20,7 @@ type VFakeMonitor struct {
 	EnableCbN  int
 	Started    bool
 	SnapshotsN int
+	SnapFn     func(call int) []kemtypes.ObjectAndFilterResult
 }
 
 func (m *VFakeMonitor) CreateInformers() error { return nil }
@@ -28,6 +29,9 @@ func (m *VFakeMonitor) Stop()                  {}
 func (m *VFakeMonitor) PauseHandleEvents()     {}
 func (m *VFakeMonitor) Snapshot() []kemtypes.ObjectAndFilterResult {
 	m.SnapshotsN++
+	if m.SnapFn != nil {
+		return m.SnapFn(m.SnapshotsN)
+	}
 	return m.Snap
 }
 func (m *VFakeMonitor) EnableKubeEventCb()        { m.EnableCbN++ }
